@@ -156,7 +156,7 @@ def _expressions(fam):
     return util, comb
 
 
-def build_context(inst, fam='a', raw=None, individuals=None, alternatives=None):
+def build_context(inst, fam='a', raw=None, individuals=None, alternatives=None, cnl=None):
     """SamplingContext of the real library for an instance (raw = (segments, sizes, mev segments, mev sizes)
     overrides the partition as given, for the input-validation cases)."""
     import pandas as pd
@@ -193,6 +193,7 @@ def build_context(inst, fam='a', raw=None, individuals=None, alternatives=None):
         combined_variables=comb,
         mev_partition=mevp,
         mev_sample_sizes=mevk,
+        cnl_nests=cnl,
     )
     return ctx
 
@@ -401,7 +402,7 @@ def _strip(ev):
     return {k: v for k, v in ev.items() if not k.startswith('_')}
 
 
-def validate(groups, parts=8, timeout=900, jvms=8):
+def validate(groups, parts=8, timeout=900, jvms=16):
     """groups: list of event lists (an `inst` event followed by its rows, or single input events);
     every event must carry a unique `tid`.  -> ({tid: verdict record}, [TlcResult])"""
     groups = [g for g in groups if g]
@@ -487,11 +488,25 @@ def _nests(spec, ids):
     )
 
 
+def _cnl_nests(spec, ids):
+    from biogeme.expressions import Beta
+    from biogeme.nests import NestsForCrossNestedLogit, OneNestForCrossNestedLogit
+
+    return NestsForCrossNestedLogit(
+        choice_set=list(ids),
+        tuple_of_nests=tuple(
+            OneNestForCrossNestedLogit(nest_param=Beta(f'cmu_{k}', float(n['mu']), None, None, 1),
+                                       dict_of_alpha={i: num / den for i, num, den in n['alpha'] if num != 0}, name=f'cnest_{k}')
+            for k, n in enumerate(spec)
+        ),
+    )
+
+
 def replay_full(item):
     """Replay one completely sampled instance emitted by TLC.  -> dict(problems=[(key, detail, facts)], n=..)."""
     import numpy as np
     import biogeme.biogeme as bio
-    from biogeme.models import loglogit, lognested
+    from biogeme.models import logcnl, loglogit, lognested
     from biogeme.expressions import Variable
     from biogeme.sampling_of_alternatives import ChoiceSetsGeneration, GenerateModel
 
@@ -561,6 +576,31 @@ def replay_full(item):
             fulln = lognested(_full_utilities(rec, fam), None, nests, Variable('choice'))
             gotfn = [float(v) for v in fulln.get_value_c(database=fdb, prepare_ids=True)]
             compare('full:full-nested', fam, gotfn, ns['fams'][fam]['p'], ns['fams'][fam]['ll'], dict(clause='full-nested', **shape))
+    # cross-nested logit (needs the second sample; without one the configuration fails like the nested logit)
+    if rec['hasmev'] and mutate is None:
+        for fam in FAMS:
+            facts = dict(clause='sampled-cnl', second_sample=True, **shape)
+            cn = rec['cnl']
+            try:
+                cctx = build_context(inst, fam, cnl=_cnl_nests(cn['nests'], ids))
+                cdb = ChoiceSetsGeneration(cctx).sample_and_merge(recycle=False)
+                try:
+                    os.remove(cctx.biogeme_file_name)
+                except OSError:
+                    pass
+                lpc = GenerateModel(cctx).get_cross_nested_logit()
+                gotc = [float(v) for v in lpc.get_value_c(database=cdb, prepare_ids=True)]
+            except Exception as e:  # noqa
+                n += 1
+                problems.append(('full:sampled-cnl:exception',
+                                 dict(fam=fam, nests=cn['nests'], error=f'{type(e).__name__}: {str(e)[:200]}', instance=inst),
+                                 dict(facts, fam=fam, exception=type(e).__name__)))
+                gotc = None
+            if gotc is not None:
+                compare('full:sampled-cnl', fam, gotc, cn['fams'][fam]['p'], cn['fams'][fam]['ll'], facts)
+            fullc = logcnl(_full_utilities(rec, fam), None, _cnl_nests(cn['nests'], ids), Variable('choice'))
+            gotfc = [float(v) for v in fullc.get_value_c(database=fdb, prepare_ids=True)]
+            compare('full:full-cnl', fam, gotfc, cn['fams'][fam]['p'], cn['fams'][fam]['ll'], dict(clause='full-cnl', **shape))
     return dict(problems=problems, n=n)
 
 
